@@ -65,8 +65,13 @@ def is_nested(f):
     return T.is_composite(f) or (f[0] in ("farr", "varr") and T.is_composite(f[1]))
 
 
+# composites holding fixed byte / text arrays (bulk paths of the array codec), and arrays of them
+BYTES_INSIDE = [["struct", [["farr", ["byte"], 2], ["bool"]]], ["union", [["farr", ["byte"], 2], ["varr", ["utf8"], 2]]], ["delim", ["struct", [["farr", ["byte"], 3]]], 32]]
+BYTES_NESTED = BYTES_INSIDE + [["farr", BYTES_INSIDE[0], 2], ["varr", BYTES_INSIDE[0], 2], ["varr", BYTES_INSIDE[2], 2]]
+
+
 def depth2(tier):
-    nested = [f for f in F2 if is_nested(f)]
+    nested = [f for f in F2 if is_nested(f)] + BYTES_NESTED
     for c in nested:
         yield from with_delim(["struct", [c]])
         for a in SUBBYTE:
